@@ -273,12 +273,19 @@ def check_starts_generic(ctx):
                 if name not in ("jssp", "fjsp"):
                     ctx.disagreement("select_start_nodes raised", {"env": name})
                 continue
+            except Exception as e:  # noqa: BLE001
+                viol(ctx, f"starts-raised:{name}", f"{name}: select_start_nodes raised on an all-feasible mask",
+                     {"env": name, "num_loc": num_loc, "B": B, "k": k, "error": repr(e)[:200]})
+                continue
             if name in ("jssp", "fjsp"):
                 ctx.disagreement("select_start_nodes did not raise for jssp/fjsp", {"env": name})
                 continue
-            if real != csv(f["generic"]):
+            model = csv(f["generic"])
+            if name == "op":  # OP picks among the feasible customers of the mask (here: all 8), not by generator.num_loc
+                model = csv(parse_fields(ctx.driver.ask(f"ops.opstarts 8 {k} {B} | {ilist([1] * (9 * B))}"))["sel"])
+            if real != model:
                 ctx.disagreement("select_start_nodes generic", {"env": name, "num_loc": num_loc, "B": B, "k": k,
-                                                                "real": real, "model": csv(f["generic"])})
+                                                                "real": real, "model": model})
             ctx.case(("starts-generic", name, num_loc, B, k), nontrivial=k > 1)
 
 
@@ -314,6 +321,9 @@ def _starts_oracle(ctx, name, mask, sel, B, k, lo, extra=None, branch=""):
                "forced_starts": st}
         if extra:
             wit.update(extra)
+        if name == "op" and f["feasstrong"] != "1":
+            viol(ctx, "starts-infeasible:op:although-some-feasible",
+                 "op: a forced start is infeasible for its instance although the instance has a feasible customer", wit)
         if f["feasok"] != "1":
             viol(ctx, f"starts-infeasible:{name}{branch}",
                           f"{name}: a forced start is infeasible for its instance although >= k feasible starts exist", wit)
@@ -354,20 +364,27 @@ def check_starts_envs(ctx):
             for k in range(1, kmax + 1):
                 tseed = ctx.rng.randrange(1 << 30)
                 torch.manual_seed(tseed)
-                sel = env.select_start_nodes(td, k).tolist()
+                try:
+                    sel = env.select_start_nodes(td, k).tolist()
+                except Exception as e:  # noqa: BLE001
+                    viol(ctx, f"starts-raised:{name}", f"{name}: select_start_nodes raised on a reset batch",
+                         {"env": name, "B": B, "k": k, "mask": mask.int().tolist(), "error": repr(e)[:200]})
+                    continue
                 if name == "op":
                     mf = parse_fields(ctx.driver.ask(
-                        f"ops.opstarts {nAct - 1} {gen} {k} {B} | {ilist(mask.int().flatten().tolist())} | {ilist(sel)}"))
-                    ctx.count("op.resample" if mf["resample"] == "1" else "op.deterministic")
-                    if mf["ok"] != "1":
-                        ctx.disagreement("op select_start_nodes outside the modelled relation",
-                                         {"B": B, "k": k, "mask": mask.int().tolist(), "sel": sel, "model": mf})
+                        f"ops.opstarts {nAct - 1} {k} {B} | {ilist(mask.int().flatten().tolist())}"))
+                    ctx.count("op.generated." + ("all-feasible" if bool(mask[:, 1:].all()) else "some-infeasible"))
+                    if sel != csv(mf["sel"]):
+                        ctx.disagreement("op select_start_nodes", {"B": B, "k": k, "mask": mask.int().tolist(), "real": sel,
+                                                                   "model": csv(mf["sel"])})
                 else:
                     mf = parse_fields(ctx.driver.ask(f"ops.starts {name} {B} {k} {gen} {nAct} {nLocs}"))
                     if sel != csv(mf["method"]):
                         ctx.disagreement("env.select_start_nodes", {"env": name, "B": B, "k": k, "real": sel,
                                                                     "model": csv(mf["method"])})
-                branch = "" if name != "op" else (":resample" if mf["resample"] == "1" else ":deterministic")
+                branch = ""
+                if name == "svrp":  # the known SVRP defect is "generic prefix rule applied regardless of the mask"
+                    branch = ":generic-rule" if sel == csv(mf["method"]) else ":other"
                 _starts_oracle(ctx, name, mask, sel, B, k, lo, extra={"num_loc": n, "torch_seed": tseed}, branch=branch)
                 ctx.case(("starts-env", name, n, B, k, rep_i), nontrivial=k > 1)
 
@@ -394,7 +411,7 @@ def check_starts_op(ctx):
     for n in (4, 5, 6):
         env = OPEnv(generator_params=dict(num_loc=n))
         for k in range(1, n + 1):
-            allrows = [list(r) for r in itertools.product([0, 1], repeat=n) if any(r)]
+            allrows = [list(r) for r in itertools.product([0, 1], repeat=n)]  # incl. no feasible customer at all
             exact = [r for r in allrows if sum(r) == k]
             fewer = [r for r in allrows if sum(r) < k]
             more = [r for r in allrows if sum(r) > k]
@@ -422,15 +439,27 @@ def check_starts_op(ctx):
             continue
         seed = ctx.rng.randrange(1 << 30)
         torch.manual_seed(seed)
-        sel = env.select_start_nodes(td, k).tolist()
-        mf = parse_fields(ctx.driver.ask(
-            f"ops.opstarts {n} {n} {k} {B} | {ilist(mask.int().flatten().tolist())} | {ilist(sel)}"))
-        ctx.count(f"op.crafted.{tag}." + ("resample" if mf["resample"] == "1" else "deterministic"))
-        if mf["ok"] != "1":
-            ctx.disagreement("op select_start_nodes outside the modelled relation",
-                             {"rows": rows, "k": k, "sel": sel, "model": mf})
-        _starts_oracle(ctx, "op", mask, sel, B, k, 1, extra={"crafted": tag, "torch_seed": seed, "rows": rows},
-                       branch=":resample" if mf["resample"] == "1" else ":deterministic")
+        try:
+            sel = env.select_start_nodes(td, k).tolist()
+        except Exception as e:  # noqa: BLE001
+            viol(ctx, "starts-raised:op", "op: select_start_nodes raised on a reset batch",
+                 {"rows": rows, "k": k, "error": repr(e)[:200]})
+            continue
+        mf = parse_fields(ctx.driver.ask(f"ops.opstarts {n} {k} {B} | {ilist(mask.int().flatten().tolist())}"))
+        ctx.count(f"op.crafted.{tag}")
+        if sel != csv(mf["sel"]):
+            ctx.disagreement("op select_start_nodes", {"rows": rows, "k": k, "real": sel, "model": csv(mf["sel"])})
+        # batch independence of the rule: every instance alone gets the same starts
+        for b in range(B):
+            solo = env.select_start_nodes(env.reset(_op_td([rows[b]])), k).tolist()
+            if solo != [sel[j * B + b] for j in range(k)]:
+                viol(ctx, "starts-batch-dependent:op", "op: forced starts of an instance depend on its batch-mates",
+                     {"rows": rows, "k": k, "instance": b, "solo": solo, "batched": [sel[j * B + b] for j in range(k)]})
+        # all customers feasible => identical to the generic depot rule
+        if all(all(r) for r in rows) and sel != [(r // B) % n + 1 for r in range(k * B)]:
+            viol(ctx, "starts-not-generic:op", "op: with all customers feasible the starts differ from the generic rule",
+                 {"rows": rows, "k": k, "sel": sel})
+        _starts_oracle(ctx, "op", mask, sel, B, k, 1, extra={"crafted": tag, "torch_seed": seed, "rows": rows})
         ctx.case(("starts-op", n, k, tuple(map(tuple, rows))), nontrivial=True)
 
 
@@ -457,7 +486,8 @@ def check_starts_svrp(ctx):
                 mf = parse_fields(ctx.driver.ask(f"ops.starts svrp {B} {k} {n} {mask.shape[-1]} {td['locs'].shape[-2]}"))
                 if sel != csv(mf["method"]):
                     ctx.disagreement("env.select_start_nodes", {"env": "svrp", "B": B, "k": k, "real": sel, "model": csv(mf["method"])})
-                _starts_oracle(ctx, "svrp", mask, sel, B, k, 1, extra={"crafted": "node 1 needs the top technician"})
+                _starts_oracle(ctx, "svrp", mask, sel, B, k, 1, extra={"crafted": "node 1 needs the top technician"},
+                               branch=":generic-rule" if sel == csv(mf["method"]) else ":other")
                 ctx.case(("starts-svrp", n, B, k))
 
 
@@ -1186,10 +1216,7 @@ def replay_c12(ctx, w):
         td = env.reset(_op_td(rows))
         torch.manual_seed(w.get("torch_seed", 0))
         sel = env.select_start_nodes(td, k).tolist()
-        mf = parse_fields(ctx.driver.ask(
-            f"ops.opstarts {n} {n} {k} {B} | {ilist(td['action_mask'].int().flatten().tolist())} | {ilist(sel)}"))
-        _starts_oracle(ctx, "op", td["action_mask"], sel, B, k, 1, extra={"rows": rows, "torch_seed": w.get("torch_seed", 0)},
-                       branch=":resample" if mf["resample"] == "1" else ":deterministic")
+        _starts_oracle(ctx, "op", td["action_mask"], sel, B, k, 1, extra={"rows": rows, "torch_seed": w.get("torch_seed", 0)})
         print("replayed OP start selection:", sel)
     elif w.get("env") == "svrp":
         check_starts_svrp(ctx)
@@ -1235,11 +1262,14 @@ C12_THEOREMS = [
     T("Rl4co.Ops.starts_feasible_of_mask", "proved", "interface lemma: reset mask admits lo..lo+k-1 => all forced starts feasible"),
     T("Rl4co.Ops.start_infeasible_of_mask", "proved", "converse: a masked index among lo..lo+k-1 IS forced"),
     T("Rl4co.Ops.envRule_table", "proved", "(lo, m) of every environment's select_start_nodes"),
-    T("Rl4co.Ops.default_starts_le", "proved", "default num_starts <= #startable for cvrp/op/pctsp/pdp/tsp/flp"),
+    T("Rl4co.Ops.default_starts_le", "proved", "default num_starts <= #startable for cvrp/pctsp/pdp/tsp/flp"),
     T("Rl4co.Ops.default_starts_gt", "proved", "default num_starts = #startable + 1 for mtvrp/svrp (node 1 forced twice)"),
-    T("Rl4co.Ops.op_starts_feasible_counterexample", "proved", "NOT (OP starts feasible whenever >= k feasible): {2,3,4}, k=3 -> {1,2,3}"),
-    T("Rl4co.Ops.op_starts_distinct_counterexample", "proved", "NOT (OP starts distinct whenever >= k feasible): batch-global resampling"),
-    T("Rl4co.Ops.op_starts_partial", "partial", "OP: resampling branch => feasible; deterministic branch => distinct, feasible iff mask admits 1..k"),
+    T("Rl4co.Ops.op_starts_feasible", "proved", "OP (fixed rule): every forced start is a customer feasible for its own instance whenever it has >= 1 feasible customer"),
+    T("Rl4co.Ops.op_starts_distinct", "proved", "OP: >= k feasible customers => the k forced starts are pairwise distinct (the first k feasible ones)"),
+    T("Rl4co.Ops.op_starts_eq_generic", "proved", "OP: all customers feasible => identical to the generic depot rule (j mod n) + 1"),
+    T("Rl4co.Ops.op_starts_eq_generic'", "proved", "… stated against instStarts of startsOf"),
+    T("Rl4co.Ops.op_starts_row", "proved", "OP: row j*B+b is copy j of instance b and depends on b's own mask only"),
+    T("Rl4co.Ops.op_default_starts", "proved", "OP's default num_starts = number of customers"),
     T("Rl4co.Ops.select_best_correct", "proved", "_select_best: max of the instance's own k rewards + actions/logp/td of that very rollout, any tie-breaking"),
     T("Rl4co.Ops.argmaxFirst_isArgmax", "proved", "first-index max satisfies the tie-breaking assumption"),
     T("Rl4co.Ops.argmaxLast_isArgmax", "proved", "last-index max satisfies the tie-breaking assumption"),
@@ -1261,7 +1291,7 @@ C17_THEOREMS = [
     T("Rl4co.Ops.wrap_travels", "proved", "through any order and batch size each delivered pair is (ds[i], g ds[i])"),
 ]
 
-NOTE_P = ("translator tie: `Params.opsLoopsReversed`, `opsNumStartsDepotEnvs`, `opsNoDepotStartEnvs`, `opsOpResampleCmp`, "
+NOTE_P = ("translator tie: `Params.opsLoopsReversed`, `opsNumStartsDepotEnvs`, `opsNoDepotStartEnvs`, `opsOpClampMin`, `opsOpArgsortStable`, "
           "`opsSampleNReplaceCmp` are regenerated from utils/ops.py (harness/probes/ops.py) and unfolded by the C12 proofs")
 
 register(Unit("C12", "ops", run_c12, drivers=["drv_ops"],
